@@ -21,6 +21,8 @@ pub struct Variant {
     /// every cross-reference stream of the file has the same object number (an update may redefine the number of the older
     /// section's stream, which is still reached through /Prev by its offset)
     pub same_xid: bool,
+    /// a cross-reference stream whose entries are all in use leaves the type field out (/W [0 n m]: the type defaults to 1)
+    pub typeless: bool,
 }
 
 pub fn variants() -> Vec<Variant> {
@@ -30,7 +32,7 @@ pub fn variants() -> Vec<Variant> {
             for (k, xf) in [Filter::None, Filter::Flate].iter().enumerate() {
                 let ofilter = if (i + j + k) % 2 == 0 { Filter::Flate } else { Filter::None };
                 let prefix = if (i + j) % 3 == 1 { 7 } else { 0 };
-                v.push(Variant { split: *split, w: *w, xfilter: *xf, ofilter, prefix, same_xid: (j + k) % 2 == 1 });
+                v.push(Variant { split: *split, w: *w, xfilter: *xf, ofilter, prefix, same_xid: (j + k) % 2 == 1, typeless: (i + k) % 2 == 0 });
             }
         }
     }
@@ -128,7 +130,9 @@ pub fn build(case: &Value, var: &Variant) -> Built {
             d.xref_table(&entries, max_id + 1, &extra, prev, var.split)
         } else {
             max_id = max_id.max(xid);
-            d.xref_stream(xid, &entries, max_id + 1, var.w, &extra, prev, var.split, var.xfilter)
+            let all_in_use = entries.iter().all(|(_, x)| matches!(x, XEntry::InUse { .. }));
+            let w = if var.typeless && all_in_use { [0, var.w[1].max(3), var.w[2]] } else { var.w };
+            d.xref_stream(xid, &entries, max_id + 1, w, &extra, prev, var.split, var.xfilter)
         };
         prev = Some(off);
     }
